@@ -81,6 +81,15 @@ def cmdLoop : Str → List Str → Str
 
 def args2cmd (args : List Str) : Str := cmdLoop [] args
 
+/-! ## escape_shell_args -/
+
+/-- `escape_shell_args(args, style=style)`; the empty string stands for `style=None` (or `''`) on a
+    platform other than win32; `none` = ValueError -/
+def escapeShellArgs (style : Str) (args : List Str) : Option Str :=
+  if style.isEmpty || style = ['s', 'h'] then some (args2sh args)
+  else if style = ['c', 'm', 'd'] then some (args2cmd args)
+  else none
+
 /-! ## reference lexer 1: POSIX sh word splitting, nothing expanded -/
 
 /-- characters that are inert in every POSIX shell when they appear unquoted in an argument
